@@ -29,13 +29,19 @@ PROPS = {
     "C03": {
         "lean": ["OxiModel.Props.C03"],
         "streams": [{"name": "corr-filters", "quick": 4000, "thorough": 80000},
-                    {"name": "corr-reduce", "quick": 4000, "thorough": 80000}],
+                    {"name": "corr-reduce", "quick": 4000, "thorough": 80000},
+                    {"name": "oracle-c19", "quick": 1500, "thorough": 30000}],
         "oracles": [{"name": "e2e", "args": ["C03"], "quick": 4000, "thorough": 60000}],
         "claim": "Lean 4 theorem by induction over the pixel loop of the per-filter alpha rewrite (all five filter types, all pixel sizes, all lines): the rewrite returns the same number of pixels, "
                  "leaves every pixel that is not fully transparent unchanged and keeps the alpha bytes of transparent ones; alphaEq is an equivalence; transparent pixels are alphaEq whatever their colour. "
                  "optimize_alpha is modelled literally and compared with the code (incl. first-pixel-transparent and all-transparent rows); the alpha-flagged reductions are compared in corr-reduce; "
                  "the e2e oracle checks alpha everywhere and colour wherever alpha != 0 at 16-bit precision with alpha optimisation on.",
-        "note": "Partial: frame theorem for the line rewrite proved; the image-level composition (heuristic strategies mutating the line across trial filters, alpha-flagged reductions) is covered by correspondence + oracle.",
+        "note": "IMAGE LEVEL (all sizes, 8/16 bit, gray+alpha and RGBA): cleaned_alpha_visible (cleaned_alpha_channel gives the same picture up to invisible colour); optimizeAlpha_rowKeep (any filter type, "
+                "any previous line: the rewritten row of whole pixels keeps length, alpha bytes and every non-transparent pixel; the colour written is exactly colour-bytes long - alphaColour_length); "
+                "RowKeep is reflexive and transitive, so the heuristic strategies' successive rewrites of one row by several trial filters compose; rows_keep_visible (rows related row by row => "
+                "sameVisiblePicture of the whole image); filterLinesStdAlpha_spec (filter_image with alpha, standard strategies, modelled and compared byte for byte: what is written is the plain "
+                "filtering of the rewritten rows - so C19's round trip returns exactly them - and they are kept versions of the original rows). Still by correspondence + oracle only: the alpha-flagged "
+                "reductions (colour key chosen for transparent pixels, blackened palette entries) and the heuristic strategies' choice loop itself.",
         "technique": "Lean 4 proof (induction over the pixel loop) + correspondence + e2e oracle",
         "partial_note": "image-level composition pending",
         "rule": "filter_line with alpha_bytes in {1,2} on rows with random transparent runs (all / none / mixed) for the five filters; e2e with optimize_alpha=true; distinct as C01",
